@@ -27,7 +27,7 @@ prop("C08", True,
      "reasoning: after Peek consumed bytes every successful return hands out the peeking connection), Peek at most once, detector sees exactly the "
      "peeked bytes, ascending scan with first acceptor returning, single-candidate shortcut, replay shape of peekConnection.Read/Peek (private copy of "
      "exactly p[:n], buffer served first and re-sliced by the copied count, under the mutex), dispatcher hand-over (selector's connection wrapped by the "
-     "idle timeout, nil-service guard, deferred close), compareAddr accept conditions, timeoutConn delegation. Does not decide whether one Peek sees enough "
+     "idle timeout, nil-service guard, deferred close), compareAddr accept conditions, timeoutConn delegation. The candidate list is traced semantically: it must be the port-table entry whose key compareAddr accepted against conn.LocalAddr() (in findService or a helper given that address) – lists from a cache or a by-string lookup are rejected. Does not decide whether one Peek sees enough "
      "bytes for a detector when the first segment is short.",
      "Trusts listener net.Conn implementations to deliver bytes in order; detectors are pure predicates on the prefix.",
      "typestate over go/ssa CFG (edge-dominance conditions + monotone-cell guard analysis), guarded reachability, value-provenance shape rules",
@@ -37,7 +37,7 @@ prop("C19", True,
      "Static check for all configurations: ToAddr's accept set from its dominating conditions (two parts, ParseUint(port,10,16), tcp/udp with the matching resolver, "
      "every other arm refuses with an error) and, in Run, guarded reachability: hc.ports[addr]=… and AddAddress(addr) are unreachable from a port string's ToAddr call "
      "once any enabling edge (no error, non-nil address, at least one resolved service, not a compareAddr-duplicate of an existing key) is deleted; service list fresh per entry "
-     "and built only from serviceList hits over the entry's names with unknown names continuing; both spellings feed the list; only Run writes the table.",
+     "and built only from serviceList hits over the entry's names with unknown names continuing; the selector reaches only the entry whose key compareAddr matched against the connection's local address (rule entry-services-only, shared with C08); both spellings feed the list; only Run writes the table.",
      "Trusts net.Resolve*Addr / strconv.ParseUint and the listener back ends' binding.",
      "guarded CFG reachability (enabling-edge deletion) + dominating-condition extraction + provenance over go/ssa",
      "DESIGN.md §2 C19")
@@ -57,6 +57,7 @@ prop("C13", True,
      "(every formatted use of an element is dominated by the negative outcome of a GREASE test whose table is exactly the 16 values 0x0a0a+k*0x1010; the point-format loop unfiltered), "
      "only decimal formatting and the separators '-' and ',', JA3Digest = hex(md5([]byte(JA3()))), extension types appended once per extension independent of type and stored on the hello, "
      "cipher suites/curves filled by ascending index as big-endian 16-bit values, clientHelloInfo field pairing, https events carrying hello.JA3Digest()/hello.ServerName. "
+     "the JA3 source fields of a received clientHelloMsg are written by unmarshal only (no store, element store or append through a re-slice elsewhere in the forked stack). "
      "Decides shape and order on all paths; MD5/hex/decimal formatting are trusted.",
      "Trusts crypto/md5, encoding/hex, fmt/strconv; record-layer reassembly not analysed; arithmetic-mask GREASE predicates are rejected as undecidable by the rule (table/switch forms accepted).",
      "dominance-ordered field use + sibling-loop cross-check + dominating-condition extraction + provenance over go/ssa",
@@ -97,6 +98,7 @@ prop("C16", True,
      "sequence of UnmarshalBinary (kind, field, loop) and every writing marshaller flushes before returning the bytes (sibling rule); primitives agree (16-bit length prefix, tags 6/17, ip then port); address roles "
      "(local values fill local slots, remote fill remote; Get(local, remote)); Connections.Get matches both addresses as separate comparisons and returns the compared element, nil only after the scan, all list methods locked; "
      "session loop delivers data only to the looked-up non-nil connection, EOF deletes+closes only it, deferred cleanup closes the rest; agentConnection.Read drops exactly the copied prefix under the mutex, receive appends under it. "
+     "Length-prefixed fields are read with io.ReadFull (a single Read on the bufio reader truncates); the connection table of a session is allocated by that session (never a listener field); the non-blocking reader wake-up goes to a channel with capacity. "
      "Does not decide ordering across goroutines or libdisco framing.",
      "Trusts libdisco's message framing (Read counts ignored in conn2.receive) and honeytrap/protocol's integer encoders.",
      "sibling cross-check of encode/decode tables and operation sequences + role/provenance + dominating-condition rules over go/ssa",
@@ -116,7 +118,7 @@ prop("C07", True,
      "Static necessary-condition checks for all line-length sequences/rotation moments/faults: the single consumer of the unbuffered request channel is started on every successful New and returns only under the channel-closed "
      "outcome (senders cannot block forever); the os.Rename target is dominated by a failed existence probe of that very name (rotation never overwrites); every file write is reachable only through a successful stat or reopen(); "
      "every advance p = p[a:] of the batch equals the length of a prefix handed to the file (or one more, when that byte is a newline index found by (Last)IndexByte and known >= 0 on every phi edge) – no byte is dropped; every prefix "
-     "written before a rotation ends at a line boundary. The exactly-once/size-bound arithmetic over all alignments and flush timing are NOT decided (run-time quantities).",
+     "written before a rotation ends at a line boundary. rotateFile is only fed by producers that end every batch on a line boundary (io.Copy of a buffer filled by json.Encoder, or an encoder directly) – byte-count flushers such as bufio.Writer are rejected. The exactly-once/size-bound arithmetic over all alignments and flush timing are NOT decided (run-time quantities).",
      "Trusts os.Rename/Lstat/File.Write; one writer goroutine per FileBackend.",
      "consumer-exit rule + dominating-condition extraction on phi edges + guarded reachability + slice-advance provenance over go/ssa",
      "DESIGN.md §2 C07")
@@ -136,7 +138,7 @@ prop("C02", True,
      "(three individually named exceptions with re-checked premises), (b) every dereference of a may-return-nil result is dominated by a nil test, (c) all 69 index/slice/make obligations on frame-derived bytes (inter-procedural taint from the "
      "Recvfrom buffer) are discharged by a difference-bound prover: facts from edge-dominating conditions, definitions, interval arithmetic with condition-aware refinement of x*k/x<<k, forwarding of struct-field loads to reaching stores, "
      "per-edge case splits at value and memory phis. Off-by-one mutants of each guard are detected. ARP parsing excluded on the re-checked premise that Canary.doARP is never written. Self-constructed buffers (Marshal/send/checksum update) are attempted, "
-     "reported, not claimed. 'A later probe still yields its event' is decided only as 'the loop cannot die by these causes'.",
+     "reported, not claimed. May-return-nil is computed through phis and one level of callees. 'A later probe still yields its event' is decided only as 'the loop cannot die by these causes'.",
      "Entry assumption: frames >= 14 bytes (property's quantifier). Callees do not modify a header struct between a guard and the use of its fields. syscall.Recvfrom returns n <= len(buf). 32-bit unsigned loop counters bounded by a length do not wrap.",
      "call-graph reach + inter-procedural taint + difference-bound (zone) prover with memory forwarding over go/ssa",
      "DESIGN.md §2 C02")
@@ -154,7 +156,7 @@ prop("C17", True,
 prop("C01", True,
      "Static check, over all inputs and schedules, of four causes of process death for the 24 director-less services: (a) call graph (VTA) from each Handle; every goroutine started there installs a recover first or its same-goroutine reach has no explicit "
      "panic/logger Panic/Fatal/os.Exit, unchecked type assertion, nor index/slice/make the difference-bound prover cannot discharge; no exit site reachable from a handler; the dispatcher's own per-connection recover is present; (b) no function reachable from a handler "
-     "calls itself on every path; (c) every access to a map stored in a shared service object (type closure from the Servicer structs, package-level maps included) that is written from handler-reachable code is under a mutex of the same object; (d) every loop driven by "
+     "calls itself on every path; (c) every access to a map stored in a shared service object (type closure from the Servicer structs, package-level maps included) that is written from handler-reachable code is under a mutex of the same object; (writes – insert/delete – need the exclusive lock, RLock does not count) (d) every loop driven by "
      "decoder reads has an exit that fires when a read fails (error-state test, a callee that provably propagates LastError, or a continuation condition that is false for the 0 a failed read returns, with the tag>0 premise proved). "
      "Implicit panics on the per-connection goroutine are covered by the checked dispatcher recover; memory growth in general and third-party code are not decided.",
      "x/crypto/ssh runs auth callbacks on the calling goroutine; library goroutines (ssh.DiscardRequests, io.Copy) do not panic on peer input; VTA call graph precision.",
@@ -164,7 +166,7 @@ prop("C01", True,
 prop("C03", True,
      "Static isolation check for all interleavings and histories of the eight stateful services: a forward may-alias analysis marks as shared the Handle receiver, package-level variables of the service packages, variables captured by closures built before any connection existed, "
      "and everything loaded from them (inter-procedural over the VTA reach of each Handle restricted to the service's own code; field-based heap; closures, parameters, results, interface dispatch; cut at the event pipeline, directors, loggers, sync, TLS key material, the per-source limiter). "
-     "Violations: a store through a shared address into a struct field or global, any send/receive/range/select on a shared channel, a mutating call on a shared stateful library object. Keyed maps are allowed (their locking is C01's). "
+     "Violations: a store through a shared address into a struct field or global, any send/receive/range/select on a shared channel, a mutating call on a shared stateful library object. By-value copies of shared structs are tracked per object (their reference fields stay shared until re-initialised before the object is handed on); element stores into and appends to shared slices are sinks. Keyed maps are allowed (their locking is C01's). "
      "Event addresses: all 135 event.SourceAddr/DestinationAddr sites under services/ take RemoteAddr()/LocalAddr() (not swapped) of a connection that is not stored in a service object. Cross-talk through the OS, libraries or response ordering is not decided.",
      "One Servicer per configured service, Handle called concurrently (server/honeytrap.go). The may-alias analysis is field-based and flow-insensitive (over-approximate); library callbacks are not followed.",
      "inter-procedural shared-memory (escape/ownership) taint with sink rules + role/provenance rule over go/ssa and the VTA call graph",
@@ -174,7 +176,7 @@ prop("C04", True,
      "Static necessary-condition checks, for all inputs and segmentations, of the capture mechanisms the property's why_tests_cant names: (R1) no buffering reader over the handler's connection is built inside a request loop (pipelined services), "
      "(R2) no direct conn.Read beside a buffered reader, (R3) no type assertion of the handler's connection to a concrete type that no in-repo caller passes (set computed from the call sites of Servicer.Handle: timeout wrapper, event.Conn) – such a branch is dead and its "
      "requests/datagrams are never decoded, (R4) every completed iteration of the redis/memcached/telnet request loops emits the command's event and the ftp/smtp line hooks hand each line to the event pump exactly once, (R5) on stream services the count returned by Read on the "
-     "connection is not discarded. THE CORE (equal event lists for every cut of the byte stream) IS A RUN-TIME PROPERTY AND IS NOT DECIDED; this check only rules out the structural ways of losing bytes/requests.",
+     "connection is not discarded. (R6) every datagram pseudo-connection built in a receive loop owns storage produced in that iteration (no buffer hoisted out of the loop). THE CORE (equal event lists for every cut of the byte stream) IS A RUN-TIME PROPERTY AND IS NOT DECIDED; this check only rules out the structural ways of losing bytes/requests.",
      "In-repo call sites of Handle (server dispatcher, https) are the only callers; conn-derivation is an intra-procedural taint followed into same-package callees.",
      "structural lints over go/ssa: loop membership of constructor calls, dead-type-assertion via call-site type sets, must-pass event emission, discarded Read counts",
      "DESIGN.md §2 C04")
@@ -182,7 +184,7 @@ prop("C04", True,
 prop("C09", True,
      "Static checks of the release mechanisms for the 24 listed services (BOUNDED TIME AND DESCRIPTOR COUNTS ARE RUN-TIME QUANTITIES AND ARE NOT DECIDED): every goroutine started in a handler's call-graph reach has a reachable return (or leaves through a recovered panic) and, when its "
      "only exits are closed/done arms of channel operations, a close() of that same channel object exists in handler code; every loop that reads from the handler's connection leaves the loop on every read error (no path from the error edge back to the read); every in-repo net.Conn "
-     "implementation's Read can return a non-nil error; every listener opened in handler-reachable code is closed; the dispatcher passes the idle-timeout wrapper whose Read/Write re-arm the deadline; no handler selects its datagram path by a connection type the dispatcher never passes.",
+     "implementation's Read can return a non-nil error; every listener opened in handler-reachable code is closed; the dispatcher passes the idle-timeout wrapper whose Read/Write re-arm the deadline; a mutex taken in service code without a deferred release is released on every path and no call that can explicitly panic sits inside the critical section (a recovered panic would leave it locked for all later connections); no handler selects its datagram path by a connection type the dispatcher never passes.",
      "Timing, descriptor counts and library-internal goroutines are not analysed; channel identity is by field / captured variable (field-based).",
      "goroutine-exit rule on the VTA call graph + loop/error-edge reachability + Reader-contract sibling rule + open/close pairing over go/ssa",
      "DESIGN.md §2 C09")
@@ -190,7 +192,7 @@ prop("C09", True,
 prop("C14", True,
      "Static check of the two structural clauses only; THE ARITHMETIC CORE (SYN-ACK/ACK numbers modulo 2^32 over all ISNs, one's-complement checksums over all payload parities, state-table lookup under all interleavings, payload-prefix content) IS NOT DECIDED – no static argument in reach bounds those run-time numerics. "
      "Decided: (1) replies are addressed back to the sender and carry this connection's counters: role-swapped provenance of every field of the tcp/ipv4 header literals in send(), NewState/StateTable.Get argument roles, RecvNext = SYN seq + 1 and SendNext = ISS + 1 stored before the SYN|ACK, sent only in LISTEN; "
-     "(2) simultaneous connections do not disturb each other through shared memory: lock table (Canary.buffer under Canary.m; Socket.rbuffer under State.m locally or in every caller; any other used ring field fails closed) and ring ownership (a ring field is only assigned a fresh allocation and never handed on).",
+     "(2) simultaneous connections do not disturb each other through shared memory: lock table (Canary.buffer under Canary.m; Socket.rbuffer under State.m locally or in every caller; any other used ring field fails closed) no ordered uint32 comparison on values of the client's sequence space (SEG.SEQ/RCV.NXT and sums), which wrap for client ISNs the property quantifies over – the sensor's own space is observed only; and ring ownership (a ring field is only assigned a fresh allocation and never handed on).",
      "glycerine/rbuf rings are not concurrency safe; locks are matched by field name; the arithmetic is out of scope.",
      "field-role provenance of composite literals + lock-dominance table (with caller-held locks) + ownership/escape rule over go/ssa",
      "DESIGN.md §2 C14")
